@@ -83,9 +83,11 @@ PROPS = {
          "Bounded only: interleavings of <= 4 iterator steps / index reads with <= 4 mutations on 8-key trees at node sizes 2/2, 3/2, all kinds, both implementations.",
          "M-ITER obligations (memory safety under interference) not discharged yet", "7/C15"),
  "C16": (False, "exploration", "bounded stand-in", "", "", "7/C16"),
- "C17": (True, "fault_enumeration", "bounded fault enumeration through the guarded allocation-failure hook (alloc_rt); every faulted call in its own process",
-         "Bounded, exhaustive over the stated scenarios: for every allocating operation and every n the n-th wrapped allocation fails; MemoryError, soundness, contents previous-or-completed, follow-up workload.",
-         "allocations made by CPython itself are outside the hook; M-ALLOC obligations not discharged yet; recorded findings for &= and setstate", "7/C17"),
+ "C17": (True, "proof", T_C + "; bounded fault enumeration through the guarded allocation-failure hook (alloc_rt), every faulted call in its own process",
+         "Proved for all inputs and every failing allocation: no container field is left pointing at a released block and "
+         "a failed allocation is never swallowed (M-ALLOC typestate on all allocating functions). Bounded, exhaustive over the "
+         "stated scenarios: MemoryError, soundness, contents previous-or-completed, follow-up workload (alloc_rt).",
+         "A4-A7; allocations made by CPython itself are outside the hook and the typestate; recorded findings for &= and setstate", "7/C17"),
 }
 
 
